@@ -32,7 +32,12 @@ def ref_case(g, props, flagset="std", unconstrained=False, entry="", file_name="
 def rnd_cat(tier, seed, nq, nt, features=(), depth=3):
     """Seeded random well-formed grammars (catalog/cores.py random_grammars): the program dimension
     beyond the hand-written catalogue; a different VERIF_SEED explores a different sample."""
-    return cores.random_grammars(seed, nq if tier == "quick" else nt, features=("pred", "label", "act") + tuple(features), depth=depth)
+    n = nq if tier == "quick" else nt
+    base = ("pred", "label", "act") + tuple(features)
+    # half of the sample with the plain generator, half with recursion behind a consuming prefix, label names
+    # drawn from a small pool (the same name in nested scopes) and arbitrary recovery expressions
+    ext = base + ("rec", "lblpool") + (("rcvgen",) if "throw" in features else ())
+    return cores.random_grammars(seed, n - n // 2, features=base, depth=depth) + cores.random_grammars(seed, n // 2, features=ext, depth=depth)
 
 
 def std_cov(report, agg, cases, bounds, rule, functions):
@@ -187,7 +192,7 @@ def check_C15(tier, seed):
 
 def run_ref_property(prop, tier, seed, cat, hprops, Nq, Nt, tq=60, tt=900, flagsets_q=("std",), flagsets_t=("std", "opt"),
                      unconstrained=False, bounds_extra=None, assumptions=(), file_name="", level="model_checking", quick_stride=1,
-                     post=None, max_steps=2_000_000, lemmas=None, rnd=None):
+                     post=None, max_steps=2_000_000, lemmas=None, rnd=None, lemma_n=(1, 2), extra=()):
     rep = Report(prop, tier, seed, level)
     w = Work()
     w.build_pigeon()
@@ -206,13 +211,15 @@ def run_ref_property(prop, tier, seed, cat, hprops, Nq, Nt, tq=60, tt=900, flags
         for g in rg:
             for fs in fss:
                 cases.append(ref_case(g, hprops, flagset=fs, unconstrained=unconstrained, file_name=file_name))
+    for g, fs in extra:
+        cases.append(ref_case(g, hprops, flagset=fs, unconstrained=unconstrained, file_name=file_name))
     twin = ref_case(cat[0], ["TWIN"], flagset=fss[0], suffix="_twin")
     catcheck.prepare(w, cases + [twin])
     agg = catcheck.explore(w, rep, cases, prop, r"Harness_%s$" % hprops[0], N, tmo, "ref", seed=seed,
                            validate_pkgs=6 if quick else 24, max_steps=max_steps)
     twin_check(w, rep, twin)
     if lemmas:
-        run_lemmas(w, rep, prop, lemmas, 1 if quick else 2)
+        run_lemmas(w, rep, prop, lemmas, lemma_n[0] if quick else lemma_n[1])
     b = {"input_bytes_max": N, "grammars": len(cases), "flag_sets": list(fss), "ssa_step_limit_per_path": max_steps,
          "alphabet": "all 256 byte values" if unconstrained else "terminal bytes of the grammar (both cases) + \\n z 0xC3 0xA9"}
     if rnd:
@@ -229,7 +236,10 @@ def run_ref_property(prop, tier, seed, cat, hprops, Nq, Nt, tq=60, tt=900, flags
 
 
 def check_C12(tier, seed):
-    return run_ref_property("C12", tier, seed, cores.fail_catalogue() + cores.pair_core()[::4], ["C12"], 4, 6, tq=120, tt=1800, rnd=(24, 200, ("throw",)))
+    lrs = [g for g in cores.lr_catalogue() if not gspec.uses_state(g)] + cores.random_lr(seed, 6 if tier == "quick" else 60)
+    return run_ref_property("C12", tier, seed, cores.fail_catalogue() + cores.pair_core()[::4], ["C12"], 4, 6, tq=120, tt=1800, rnd=(24, 200, ("throw",)),
+                            extra=[(g, "lr") for g in lrs],
+                            lemmas=["FailLit", "FailClass", "FailAny", "FailNot", "FailAnd"], lemma_n=(2, 3))
 
 
 def check_C17(tier, seed):
@@ -238,7 +248,7 @@ def check_C17(tier, seed):
 
 
 def check_C02(tier, seed):
-    return run_ref_property("C02", tier, seed, cores.context_catalogue() + cores.composites(), ["C02"], 4, 5, tq=120, lemmas=["Action", "Label"], rnd=(16, 150, ("state",)))
+    return run_ref_property("C02", tier, seed, cores.context_catalogue() + cores.composites(), ["C02"], 4, 5, tq=120, lemmas=["Action", "Label", "And", "Not", "Star", "Plus", "Opt", "Choice", "Seq"], rnd=(16, 150, ("state",)))
 
 
 def check_C05(tier, seed):
@@ -246,7 +256,7 @@ def check_C05(tier, seed):
 
 
 def check_C14(tier, seed):
-    return run_ref_property("C14", tier, seed, cores.throw_catalogue(), ["C14"], 4, 6, flagsets_q=("std", "opt"), tq=120, tt=1800, lemmas=["Recovery", "Throw"], rnd=(16, 200, ("throw",)))
+    return run_ref_property("C14", tier, seed, cores.throw_catalogue(), ["C14"], 4, 6, flagsets_q=("std", "opt"), tq=120, tt=1800, lemmas=["Recovery", "RecoveryTwice", "Throw"], rnd=(16, 200, ("throw",)))
 
 
 def check_C11(tier, seed):
@@ -304,6 +314,8 @@ def check_C09(tier, seed):
         if alt:
             bflags += ["-alternate-entrypoints", ",".join(alt)]
         cases.append(rel_case(g, ["C09"], [], bflags, entries=ents))
+    for g in cores.random_class_merges(seed, 24 if quick else 250):
+        cases.append(rel_case(g, ["C09"], [], ["-optimize-grammar"]))
     for g in rnd_cat(tier, seed, 24, 250, ("throw",)):
         ents = g.get("entries") or [""]
         alt = [e for e in ents if e]
@@ -394,6 +406,7 @@ def overlay_explore(rep, prop, ov, hre, nmin, nmax, tmo, case_id, sample_every=5
     agg["externals"] = res.get("externals") or []
     samples = []
     triaged = 0
+    known_done, new_done = {}, {}
     for j in res.get("jobs") or []:
         if args is not None and j["arg"] not in args:
             continue
@@ -414,9 +427,23 @@ def overlay_explore(rep, prop, ov, hre, nmin, nmax, tmo, case_id, sample_every=5
             samples.append({"harness": hname, "arg": j["arg"], "model": s["model"], "notes": s.get("notes") or []})
         for cx in j.get("counterexamples") or []:
             agg["cex"] += 1
-            if triaged < max_triage:
+            # counterexamples fitting a listed known finding have their own small budget, so that
+            # they cannot use up the replay slots of a violation that is not listed
+            model = cx.get("model") or {}
+            pre = match_known(prop, {"case": case_id, "tags": [], "msg": cx.get("msg", ""), "model": model, "input": catcheck.model_bytes(model),
+                                     "native": {"notes": cx.get("notes") or []}})
+            if pre is not None:
+                if known_done.get(pre["id"], 0) >= 1:
+                    continue
+                known_done[pre["id"]] = 1
+            else:
+                mkey = (cx.get("msg", "")[:60])
+                if triaged >= max_triage or new_done.get(mkey, 0) >= 2:
+                    agg["cex_not_triaged"] = agg.get("cex_not_triaged", 0) + 1
+                    continue
+                new_done[mkey] = new_done.get(mkey, 0) + 1
                 triaged += 1
-                triage_overlay(rep, prop, ov, hname, j["arg"], cx, case_id)
+            triage_overlay(rep, prop, ov, hname, j["arg"], cx, case_id)
     if samples:
         got = ov.native_batch([{"harness": s["harness"], "arg": s["arg"], "model": s["model"]} for s in samples[:60]])
         if got is None:
@@ -643,6 +670,7 @@ def c13_grammars(quick):
         "A<-[\\p{Nd}\\pLa-c]i [^\\]\\n]\n",
         "A<-[a_-\\pL] [+-\\p{Nd}]i\n",
         "S<-K V;K<-W K?;V<-W V?\nW<-&{return true,nil}'a'\n",
+        "A<-A 'x'/B 'y'/'a';B<-B 'p'/A 'q'/'b'\n",
     ]
     if quick:
         return short
@@ -680,6 +708,9 @@ def check_C13(tier, seed):
                 # shape grammar (code in a leaf rule inlined into two surviving rules): the unmutated shape matters,
                 # two positions whose mutation mostly keeps the text valid are enough in the quick tier
                 return [g.index("'a'") + 1, g.index("K?") + 1]
+            if g.startswith("A<-A 'x'/B"):
+                # shape grammar (two rules, each directly and both mutually left-recursive: no leader candidate)
+                return [g.index("'x'") + 1, g.index("'q'") + 1]
             return range(off % 2, n, 2) if n <= 30 else range(off, n, stride)
         args = [gi * maxlen + p for gi, g in enumerate(gs) for p in positions(g)]
     else:
@@ -803,7 +834,7 @@ func Harness_C03rt(n int) {
              "zz_verif_dump.go": open(os.path.join(VERIF, "harness", "astdump_main.go")).read(),
              "zz_verif_c03h.go": open(os.path.join(VERIF, "harness", "c03_holes_main.go")).read(),
              "zz_verif_c03.go": "".join(src)}
-    names = ["Harness_C03rt", "Harness_C03layout", "Harness_C03comment", "Harness_C03escape", "Harness_C03class", "Harness_C03op", "Harness_C03ident"]
+    names = ["Harness_C03rt", "Harness_C03layout", "Harness_C03comment", "Harness_C03escape", "Harness_C03class", "Harness_C03op", "Harness_C03ident", "Harness_C03code"]
     ov = RepoOverlay(w, ".", "main", files, names)
     agg = overlay_explore(rep, "C03", ov, "Harness_C03rt$", 0, len(rt) - 1, 120, "c03_roundtrip", sample_every=1, max_triage=5, max_steps=20_000_000 if quick else 400_000_000)
     lay_args = [ci * maxseps + si for ci, (_, _, seps, _) in enumerate(lay) for si in range(len(seps))]
@@ -812,6 +843,8 @@ func Harness_C03rt(n int) {
     agg = merge_agg(agg, overlay_explore(rep, "C03", ov, "Harness_C03comment$", 0, 0, tmo, "c03_comment", sample_every=23, max_triage=3, args=set(lay_args[::2] if quick else lay_args)))
     esc_args = [q * 16 + n for q in (0, 1, 2, 3) for n in ((1, 3, 5) if quick else (1, 3, 5, 9))]  # double, single, class, class range bound
     agg = merge_agg(agg, overlay_explore(rep, "C03", ov, "Harness_C03escape$", 0, 0, tmo, "c03_escape", sample_every=23, max_triage=3, args=set(esc_args)))
+    code_args = [8 * f + k for f in range(6) for k in range(0, (3 if quick else 4) + 1)]
+    agg = merge_agg(agg, overlay_explore(rep, "C03", ov, "Harness_C03code$", 0, 0, tmo, "c03_code", sample_every=23, max_triage=3, args=set(code_args)))
     cls_args = list(range(0, (3 if quick else 4) + 1)) + [10 * sh + k for sh in range(1, 9) for k in range(1, (2 if quick else 3) + 1)]
     agg = merge_agg(agg, overlay_explore(rep, "C03", ov, "Harness_C03class$", 0, 0, tmo, "c03_class", sample_every=23, max_triage=3, args=cls_args))
     agg = merge_agg(agg, overlay_explore(rep, "C03", ov, "Harness_C03op$", 0, 0, tmo, "c03_op", sample_every=3, max_triage=3))
@@ -822,6 +855,7 @@ func Harness_C03rt(n int) {
                            "escape_holes": "escape bodies of length %s in double and single quotes and inside classes (alone and as a range bound), all bytes symbolic, assumed valid by the reference decoder" % ("1,3,5" if quick else "1,3,5,9"),
                            "class_holes": "class bodies of <= %d symbolic printable ASCII bytes, and <= %d symbolic bytes between 8 concrete prefix/suffix shapes (pending character, complete range, two ranges, leading/trailing dash); ^ and i symbolic" % ((3, 2) if quick else (4, 3)),
                            "random_grammars": "seeded sample (seed %d) added to the round trips" % seed,
+                           "code_block_holes": "<= %d symbolic bytes inside a string, raw string, rune literal, line comment, block comment or nested braces of a code block whose tail would unbalance the braces if the hole were delimited wrongly" % (3 if quick else 4),
                            "operator_holes": "prefix and suffix operator symbolic in a skeleton using all eight binding levels",
                            "identifier_holes": "identifiers of <= %d symbolic ASCII characters" % (2 if quick else 3)},
             "one state = one explored path of the real front end (class of hole contents); the round trip has one path per grammar",
@@ -1004,6 +1038,7 @@ def check_C04(tier, seed):
     allcls = gspec.grammar("c04_allclasses", [gspec.rule("S", gspec.act(gspec.label("x", gspec.star(gspec.cls(classes=classes))), gspec.b_rec("s")))])
     base = [allcls] + cores.composites()[:3] + cores.state_catalogue()[:2] + cores.throw_catalogue()[:2] + cores.context_catalogue()[:2] + cores.fault_catalogue()[:1]
     base += [g for g in cores.opt_catalogue() if g["name"].startswith(("og_sharedcode", "og_entry"))]
+    base += [g for g in cores.throw_catalogue() if g["name"] in ("tr_lblshare",)]
     base += rnd_cat(tier, seed, 6, 40, ("state", "throw"))
     if not quick:
         base += cores.composites()[3:] + cores.state_catalogue()[2:8] + cores.throw_catalogue()[2:] + cores.opt_catalogue()[::3] + cores.pair_core()[::10]
@@ -1094,6 +1129,7 @@ def check_C04(tier, seed):
 def check_C18(tier, seed):
     quick = tier == "quick"
     cat = cores.state_catalogue()[:: (4 if quick else 1)] + cores.composites()[: (3 if quick else 10)] + cores.context_catalogue()[:2] + cores.throw_catalogue()[:2]
+    cat = cat + [g for g in cores.throw_catalogue() if g["name"] in ("tr_rcvchoice", "tr_lblshare")]
     cat = cat + rnd_cat(tier, seed, 4, 40, ("state", "throw"))
     lr = cores.lr_catalogue()[: (1 if quick else 3)]
     rep = Report("C18", tier, seed, "other")
@@ -1111,6 +1147,30 @@ def check_C18(tier, seed):
     def confirm(w_, rel, hname, arg, model, msg):
         """A discipline violation seen by the engine monitor has no assertion in the
         sequential native harness: confirm it with the race detector on a concurrent run."""
+        if hname == "Harness_C18order":
+            # two processes: Parse(b) after Parse(a), and Parse(b) alone; the digests (value, errors, trace, statistics) must agree
+            tb = test_binary(w_, rel)
+            if tb is None:
+                return None
+            mp = os.path.join(w_.dir, "order-model-%s.json" % hashlib.sha1(json.dumps([rel, arg, model], sort_keys=True).encode()).hexdigest()[:10])
+            with open(mp, "w") as f:
+                json.dump({"model": model}, f)
+            digests = {}
+            raw = ""
+            for mode in ("after", "alone"):
+                env = base_env()
+                env.update({"VERIF_REPLAY": mp, "VERIF_HARNESS": hname, "VERIF_ARG": str(arg), "VERIF_MODE": mode})
+                text, timed_out = run_group([tb, "-test.run", "TestReplay$", "-test.v"], cwd=os.path.join(w_.mod, rel), env=env, timeout=60)
+                raw += text
+                nat1 = parse_native(text)
+                digests[mode] = [x for x in nat1["notes"] if x.startswith("digest:")]
+            nat = parse_native(raw)
+            nat["notes"] = []
+            if digests["after"] and digests["alone"] and digests["after"] != digests["alone"]:
+                nat["fails"] = [msg + " [two processes: after=%s alone=%s]" % (digests["after"][0][:200], digests["alone"][0][:200])]
+            else:
+                nat["fails"] = []
+            return nat
         if not msg.startswith("C18: a ") and "pool" not in msg:
             return None
         out = os.path.join(w_.dir, "tb", "race_" + hashlib.sha1(rel.encode()).hexdigest()[:10] + ".test")
@@ -1134,7 +1194,7 @@ def check_C18(tier, seed):
         nat["timeout"] = timed_out
         return nat
     for c_ in cases:
-        c_.harness_names = ["Harness_C18", "Harness_C18native", "Harness_C18abort"]
+        c_.harness_names = ["Harness_C18", "Harness_C18native", "Harness_C18abort", "Harness_C18order"]
     catcheck.prepare(w, cases)
     agg = catcheck.explore(w, rep, cases, "C18", r"Harness_C18$", N, tmo, "ref", seed=seed, validate_pkgs=5 if quick else 16, confirm=confirm)
     # aborted middle call (symbolic expression budget): grammars with rules, labels, state and recovery operators
@@ -1142,13 +1202,15 @@ def check_C18(tier, seed):
     if quick:
         ab = [c_ for c_ in ab if c_.id.endswith(("_std", "_lr"))][:3] + [c_ for c_ in ab if c_.id.endswith("_opt")][:2] + [c_ for c_ in ab if c_.id.startswith("rnd")][:2]
     agg = merge_agg(agg, catcheck.explore(w, rep, ab, "C18", r"Harness_C18abort$", N, tmo, "ref", seed=seed, validate_pkgs=3 if quick else 8, confirm=confirm))
+    # order independence against a fresh process (first-call-wins caches): all cases, no monitor
+    agg = merge_agg(agg, catcheck.explore(w, rep, cases, "C18", r"Harness_C18order$", N, tmo, "ref", seed=seed, validate_pkgs=3 if quick else 8, confirm=confirm))
     rep.cov.update({
         "explanation": "Goroutine interleavings are not encoded (DESIGN.md §5). Decided by the solver for all pairs of inputs within the bound on the catalogue: (1) during Parse no store, map update or delete targets an object reachable from a package-level variable of the generated package (engine monitor on every Store/MapUpdate/delete); (2) a map is empty when it is handed to sync.Pool.Put and is not read or written again until Pool.Get returns it; (3) Pool.Get returns nondeterministically any pooled map or a fresh one and the result of a Parse is the same as when it ran first. Given 1-3 and the linearizability of sync.Pool (trusted), two concurrent calls share no mutable location: every schedule yields the sequential results and there is no data race - a paper argument, stated as such.",
         "evaluations": agg["paths"], "distinct_nontrivial": agg["completed"], "programs": len(cases),
         "paths": agg["paths"], "queries": agg["queries"], "solver_s": round(agg["solver_s"], 2), "assertions_checked": agg["asserts"],
         "assertions_discharged": agg["discharged"], "counterexamples_from_solver": agg["cex"],
         "cross_validated_paths": agg["validated"], "traces_validated_against_impl": agg["validated_ok"],
-        "bounds": {"input_bytes_max_each": N, "calls": "Parse(b) alone, then Parse(a), then Parse(b) again, Memoize symbolic per call (standard parsers); second family: the middle call aborted by a symbolic MaxExpressions budget in [1,20]", "pool": "at most one Get per path deviates from LIFO (fresh map or oldest pooled map)"},
+        "bounds": {"input_bytes_max_each": N, "calls": "Parse(b) alone, then Parse(a), then Parse(b) again, Memoize symbolic per call (standard parsers); second family: the middle call aborted by a symbolic MaxExpressions budget in [1,20]; third family: Parse(b) after Parse(a) against Parse(b) in a fresh process (package-level variables back to their initial values), statistics included", "pool": "at most one Get per path deviates from LIFO (fresh map or oldest pooled map)"},
         "functions_encoded": RUNTIME_FUNCS + ["sync.Pool model: LIFO list + nondeterministic Get"],
         "rule": "one evaluation = one explored path (pair of input classes x pool choices x options)",
         "stubs_and_intrinsics": agg.get("externals", []),
